@@ -319,6 +319,15 @@ class ChannelState:
                         or any(stop(y) for b in (s_.body, s_.orelse) for z in b for y in ast.walk(z) if isinstance(y, ast.stmt))
                     v = self.ev(s_.test, cur)
                     if v is None:
+                        stores = any(isinstance(x, ast.Attribute) and isinstance(x.ctx, ast.Store) and x.attr in self.domain for b in (s_.body, s_.orelse) for y in b for x in ast.walk(y))
+                        if touches and not stores:
+                            # a test over something else (counters, the queue) around the statement looked for: the life-cycle
+                            # state is the same on both branches; the statement is reached in the one that holds it
+                            for blk in (s_.body, s_.orelse):
+                                r = run(blk)
+                                if r is None or r is True:
+                                    return r
+                            continue
                         if touches:
                             return None
                         continue
